@@ -169,3 +169,32 @@ vproof! {
         kani::cover!(kk <= nn - kk && n <= nn / 2, "no reduction");
     }
 }
+
+// ------------------------------------------------------------------------------------------
+// C03: samples lie in [max(0, n+K-N), min(n, K)] (HIN inverse transform, small populations)
+// ------------------------------------------------------------------------------------------
+
+//@ id: c03_hypergeometric_hin
+//@ prop: C03
+//@ tier: thorough
+//@ cap: 1500
+//@ funcs: Hypergeometric::new (incl. the real fraction_of_products_of_factorials); Hypergeometric::sample (HIN inverse transform, affine map back through offset_x / sign_x)
+//@ bounds: every (N, K, n) with N <= 7 (always HIN); every first word; loops unwound to their exact bound (unwinding assertions ON)
+//@ assumes: none (no libm call on this path)
+#[kani::proof]
+#[kani::unwind(9)]
+fn c03_hypergeometric_hin() {
+    let mut rng = SymRng::new(1); // all symbolic inputs are drawn first (replay alignment)
+    let nn: u64 = kani::any();
+    let kk: u64 = kani::any();
+    let n: u64 = kani::any();
+    kani::assume(nn <= 7 && kk <= nn && n <= nn);
+    let d = match Hypergeometric::new(nn, kk, n) { Ok(d) => d, Err(_) => return };
+    let x = d.sample(&mut rng);
+    let lo = if n + kk > nn { n + kk - nn } else { 0 };
+    let hi = if n < kk { n } else { kk };
+    vassert!(x >= lo && x <= hi, "Hypergeometric sample outside [max(0, n+K-N), min(n, K)]");
+    vassert!(rng.pos == 1, "Hypergeometric(HIN) consumes exactly one word");
+    kani::cover!(kk > nn - kk && n > nn / 2 && x > 0, "both reductions, positive sample");
+    kani::cover!(x == hi && hi > 0, "upper end of the support");
+}
